@@ -1,2 +1,27 @@
-/- stub: line-protocol driver for C04 (to be written) -/
-def main : IO Unit := pure ()
+/- Line-protocol driver of C04: reads abstract models (format of checks/c04_model.py `lean_lines`, each introduced by
+   `model <id>` and closed by `end`) and prints what the model of the XML reader + document builder predicts:
+   the callback trace of `readXml (renderXml M)` and the canonical dump of the built document.  The C++ harness
+   `harness/c04.cpp` answers the rendered XML text with the real trace and dump. -/
+import UtapModel.Model.AModelIO
+open UtapModel.AM
+
+def report (id : String) (M : AModel) : List String :=
+  let calls := readXml (renderXml M)
+  let s := build calls
+  [s!"BEGIN {id}", s!"WF {b01 M.wf}", s!"SPEC-EQ {b01 (decide (s.doc = docOf M))}", s!"ERRS {s.errs.length}",
+   s!"FRAGS {s.frags.length}"] ++
+  (traceLines {} calls).map ("TRACE " ++ ·) ++ (docLines s.doc) ++ [s!"END {id}"]
+
+partial def loop (h out : IO.FS.Stream) (id : String) (ps : PS) : IO Unit := do
+  let line ← h.getLine
+  if line.isEmpty then return ()
+  let ws := (line.trimAscii.toString.splitOn " ").filter (· ≠ "")
+  match ws with
+  | ["model", i] => loop h out i {}
+  | ["end"] =>
+    for l in report id ps.m do out.putStrLn l
+    loop h out id {}
+  | _ => loop h out id (feed ps ws)
+
+def main : IO Unit := do
+  loop (← IO.getStdin) (← IO.getStdout) "?" {}
